@@ -774,6 +774,52 @@ func vRateFor(deposit int64, blocks int) int64 {
 
 func vScenarios() []vScenario {
 	return []vScenario{
+		// a transaction that writes something, and then fails as a whole because
+		// of a later message, leaves nothing behind - also not in memory; the
+		// next transaction reads what the reverted one would have written
+		{"reverted-tx-then-use", func(g *vGen) {
+			t, p := g.h.actor("tenant", g.r.Intn(3)), g.h.actor("provider", g.r.Intn(3))
+			price := g.unitPrice()
+			nowhere := mtypes.OrderID{Owner: t.Bech, DSeq: 987654, GSeq: 1, OSeq: 1}
+			failingBid := &mtypes.MsgCreateBid{Order: nowhere, Provider: p.Bech, Price: vCoin(price), Deposit: vCoin(g.h.c.profile.BidMinDeposit)}
+			// (a) provider record: an attribute added by a reverted update admits nothing
+			g.h.DoNote("tpl/provider-with-two-attributes", 1, p, &ptypes.MsgCreateProvider{Owner: p.Bech, HostURI: "https://" + p.Name + ".example.com",
+				Attributes: types.Attributes{{Key: "region", Value: "a"}, {Key: "arch", Value: "a"}}})
+			g.h.DoNote("tpl/provider-reset-to-two-attributes", 0, p, &ptypes.MsgUpdateProvider{Owner: p.Bech, HostURI: "https://" + p.Name + ".example.com",
+				Attributes: types.Attributes{{Key: "region", Value: "a"}, {Key: "arch", Value: "a"}}})
+			idA := dtypes.DeploymentID{Owner: t.Bech, DSeq: g.freshDSeq(t)}
+			req := types.PlacementRequirements{Attributes: types.Attributes{{Key: "region", Value: "a"}, {Key: "tier", Value: "a"}}}
+			if o := g.h.DoNote("tpl/create-deployment-requiring-tier", 1, t, &dtypes.MsgCreateDeployment{ID: idA,
+				Groups: []dtypes.GroupSpec{vGroupSpec("g1", req, vUnitSpec{price, 1})}, Version: vVersion(g.r), Deposit: vCoin(g.minDep())}); o.OK {
+				g.h.DoNote("tpl/reverted-provider-update+failing-bid", g.r.Intn(2), p,
+					&ptypes.MsgUpdateProvider{Owner: p.Bech, HostURI: "https://" + p.Name + ".example.com", Attributes: vFullAttrs()}, failingBid)
+				g.h.DoNote("tpl/bid-needing-the-reverted-attribute", g.r.Intn(2), p,
+					&mtypes.MsgCreateBid{Order: vOrderID(idA, 1, 1), Provider: p.Bech, Price: vCoin(price), Deposit: vCoin(g.h.c.profile.BidMinDeposit)})
+			}
+			// (b) escrow: a reverted withdraw in the block of a close takes no earnings away
+			idB, ok := g.tplDeploy(1, t, g.minDep()*2, []vUnitSpec{{price, 1}})
+			if !ok {
+				return
+			}
+			bid, _ := g.tplBid(g.r.Intn(2), p, vOrderID(idB, 1, 1), price)
+			g.h.DoNote("tpl/create-lease", g.r.Intn(2), t, &mtypes.MsgCreateLease{BidID: bid})
+			g.h.DoNote("tpl/reverted-withdraw+failing-bid", g.r.Range(2, 6), p, &mtypes.MsgWithdrawLease{LeaseID: bid.LeaseID()}, failingBid)
+			if g.r.Bool() {
+				g.h.DoNote("tpl/close-lease-in-the-block-of-the-reverted-withdraw", 0, t, &mtypes.MsgCloseLease{LeaseID: bid.LeaseID()})
+			} else {
+				g.h.DoNote("tpl/close-bid-in-the-block-of-the-reverted-withdraw", 0, p, &mtypes.MsgCloseBid{BidID: bid})
+			}
+			// (c) escrow: a reverted close leaves the account open
+			idC, ok := g.tplDeploy(1, t, g.minDep(), []vUnitSpec{{price, 1}})
+			if !ok {
+				return
+			}
+			g.h.DoNote("tpl/reverted-close-deployment+failing-deposit", g.r.Intn(3), t,
+				&dtypes.MsgCloseDeployment{ID: idC}, &dtypes.MsgDepositDeployment{ID: dtypes.DeploymentID{Owner: t.Bech, DSeq: 987655}, Amount: vCoin(1)})
+			g.h.DoNote("tpl/deposit-after-reverted-close", g.r.Intn(2), t, &dtypes.MsgDepositDeployment{ID: idC, Amount: vCoin(1000)})
+			g.h.DoNote("tpl/close-deployment", g.r.Intn(3), t, &dtypes.MsgCloseDeployment{ID: idC})
+			g.h.DoNote("tpl/close-deployment-b", g.r.Intn(3), t, &dtypes.MsgCloseDeployment{ID: idB})
+		}},
 		// one provider holds the leases (gseq 1, oseq 2) and (gseq 2, oseq 1) of a
 		// deployment - the sequence numbers of one are the other's, swapped -
 		// and each is then acted on by itself
